@@ -110,6 +110,8 @@ def run(run):
                 run.bad("C10.I1", "span-consumer/%s" % short(p), where(t), "%s does not simply map `span.endorse()` over the spans (endorse closure=%s, only iterated=%s)" % (short(p), ok, only_iter))
         run.floor("C10.I1", "span_consumers", len(lib_users), 1)
         i3(run)
+        from .c16 import chord_box_rule
+        chord_box_rule(run, "C10.I4")
         # ---------------- I2 grouping
         r = [strip(x) for x in Expr(prog, vsf).returns()]
         ok = len(r) == 1 and r[0][0] == "call" and r[0][1].endswith("merge::Merge::merge_recursive")
